@@ -1,5 +1,7 @@
 """C08 - disposables are entered once, exited once, and their cleanup errors surface."""
-from harness.legs import cfg_text, leg_m, leg_mutant, leg_r
+import random
+
+from harness.legs import cfg_text, gen_traces, leg_m, leg_mutant, leg_r, leg_t_gen
 from props.scopelife_common import ScopeLifeDriver, replay  # noqa: F401
 
 SPEC = "ScopeLife"
@@ -39,6 +41,11 @@ def run(rep, work, tier, seed):
                    ["ExitOnce"])
     for name, conf in confs:
         leg_r(rep, work, SPEC, f"conf_{name}_{tier}", cfg_text(conf, invariants=INVS), ScopeLifeDriver, world=True)
+    # leg T: 4 disposables / 3 spawned tasks, random environment moves among those the real scope offers
+    from props.scopelife_common import TRACE_KW as LIFE_KW, gen_trace as life_trace
+    rnd = random.Random(seed * 41 + 7)
+    traces = gen_traces(rep, lambda: life_trace(rnd), 200 if tier == "quick" else 3000)
+    leg_t_gen(rep, work, "ScopeLife", f"trace_{tier}", traces, **LIFE_KW)
     rep.assumptions += [
         "disposable doubles: disposable i yields the state B = i (the body must see the one declared last, whatever the "
         "order in which they finished entering), the middle one of three yields nothing (None); return shapes alternate "
